@@ -223,6 +223,40 @@ def one_shot_iterators(prog, rep):
     rep.extra["closure_iterations_checked"] = n
 
 
+def typed_arguments(prog, rep):
+    """the typecheck wrapper only looks at parameters annotated with one of the types it knows: a built-in whose
+    argument is annotated otherwise (List[Event], Sequence, nothing) receives whatever the query text evaluates to"""
+    rep.rule("ARG-TYPED", "every built-in is wrapped by the typecheck decorator, and each of its required parameters is either one the registry wrapper injects (annotated Datastore / TNamespace) or annotated with exactly one of the types the typecheck wrapper verifies (read from its `annotation in [...]` test): any other annotation makes the wrapper skip the argument, and a value of the wrong type reaches the transform, where AttributeError / TypeError escape")
+    tg = prog.func("q2_typecheck.g")
+    checked = None
+    for n in walk_with_nested_exprs(tg.node):
+        if isinstance(n, ast.Compare) and len(n.ops) == 1 and isinstance(n.ops[0], ast.In) and norm(n.left).endswith(".annotation") and isinstance(n.comparators[0], (ast.List, ast.Tuple, ast.Set)):
+            checked = {norm(x) for x in n.comparators[0].elts}
+    if checked is None:
+        rep.undecided("ARG-TYPED", "q2_typecheck.g", "checked annotation set", "no `<param>.annotation in [<types>]` test found in the typecheck wrapper", tg.loc())
+        return
+    injected = {"Datastore", "TNamespace"}
+    n_f = 0
+    for fi in prog.funcs.values():
+        if not (fi.mod.name == "aw_query.functions" and fi.outer is None and any(d.startswith("q2_function") for d in fi.decorators)):
+            continue
+        n_f += 1
+        ds = [d for d in fi.decorators]
+        okd = "q2_typecheck" in ds and ds.index("q2_typecheck") > [i for i, d in enumerate(ds) if d.startswith("q2_function")][0]
+        rep.check(okd, "ARG-TYPED", fi.short, "wrapped by the typecheck decorator", "@q2_function(...) over @q2_typecheck", f"{fi.short} is registered without the typecheck wrapper (decorators: {ds}): none of its arguments is verified", fi.loc())
+        a = fi.node.args
+        pos = a.posonlyargs + a.args
+        ndef = len(a.defaults)
+        for i, p in enumerate(pos):
+            if i >= len(pos) - ndef:
+                continue  # optional: not checked by design (documented FIXME), its default stands in
+            ann = norm(p.annotation) if p.annotation is not None else None
+            if ann in injected:
+                continue
+            rep.check(ann in checked, "ARG-TYPED", fi.short, f"parameter {p.arg}: {ann}", f"one of {sorted(checked)}", f"parameter `{p.arg}` of built-in {fi.short} is annotated `{ann}`, which the typecheck wrapper does not recognise (it verifies only {sorted(checked)}): the argument is passed through unverified, so e.g. a string or number where a list of events is expected reaches the transform and a foreign exception (AttributeError / TypeError) escapes the query", fi.loc(p))
+    rep.floor("registered built-ins", n_f, 18)
+
+
 def raise_kinds(prog, rep):
     """which member of the family: the property names it per kind of error"""
     rep.rule("RAISE-KIND", "malformed text is reported as a parse error (every raise in the scanners, the parse methods, _parse_token and parse()), an unknown variable / unknown function / wrong argument count as an interpret error (the interpret methods and the typecheck wrapper's arity branch), a wrong argument type or unknown bucket as a function error (_verify_variable_is_type, _verify_bucket_exists and the bucket-access built-ins)")
@@ -398,6 +432,7 @@ def check(prog, rep):
     rep.not_decided = ["exceptions raised inside built-in bodies (bad regex, missing key in simplify_string, iso8601.ParseError in query_bucket_eventcount after a query re-binds STARTTIME): outside 'parsing or name/arity/type resolution'", "RecursionError on pathological nesting (resource)"]
     explicit_raises(prog, rep)
     raise_kinds(prog, rep)
+    typed_arguments(prog, rep)
     bucket_guard(prog, rep)
     implicit_raises(prog, rep)
     external_calls(prog, rep)
@@ -408,6 +443,9 @@ def check(prog, rep):
 
 
 VARIANTS = [
+    ("B event-list parameter annotated List[Event] (typecheck skips it)", QF, "def q2_sort_by_duration(events: list) -> List[Event]:", "def q2_sort_by_duration(events: List[Event]) -> List[Event]:", "ARG-TYPED"),
+    ("B built-in registered without the typecheck wrapper", QF, "@q2_function(sort_by_timestamp)\n@q2_typecheck\n", "@q2_function(sort_by_timestamp)\n", "ARG-TYPED"),
+    ("B error text built from the class of a blank token", "aw_query/query2.py", "raise QueryParseException(\"Cannot assign to a non-variable\")", "raise QueryParseException(f\"Cannot assign to a {var_t.__name__}\")", "IMPLICIT-RAISE"),
     ("B strip after the emptiness test (original defect)", Q2, "    string = string.strip()\n    if len(string) == 0:\n        return (None, \"\"), string\n", "    if len(string) == 0:\n        return (None, \"\"), string\n    string = string.strip()\n", "IMPLICIT-RAISE"),
     ("B unguarded entries_str[0] after strip (original defect)", Q2, "            if not entries_str or entries_str[0] != \":\":", "            if entries_str[0] != \":\":", "IMPLICIT-RAISE"),
     ("B isdigit admits non-decimal digits (original defect)", Q2, "            if char.isdecimal():\n                token += char", "            if char.isdigit():\n                token += char", "IMPLICIT-RAISE"),
